@@ -31,6 +31,7 @@ func init() {
 	ruleText["R06.6"] = "same analysis as C01/R01.4: copyNode copies or re-initialises every node field the AST builder sets, so that defer/recover/panic statements inside instantiated generic functions are compiled like the same statements elsewhere"
 	ruleText["R06.8"] = "same analysis as C01/R01.8 on the generator of recover: every path of its run-time closure that continues execution stores the call's result, so a recover() executed again in the same activation does not yield the previous panic value"
 	ruleText["R06.9"] = "same analysis as C08/R08.1: no run-time closure writes a variable captured from its generator (deferred-call wrappers and records are per execution)"
+	ruleText["R06.10"] = "in the deferred function of runCfg and its in-package callees (callDeferred and Walk excepted), every constant index X.child[k] lies under a test of X.kind or len(X.child) (enclosing if/switch/case, left operand of &&, or an earlier guard that leaves the block)"
 	ruleText["R06.5"] = "a converting recover assigns Panic{Value: <recovered>, ...} to the error result of its function"
 }
 
@@ -44,6 +45,7 @@ func runC06(c *Config, r *Report) {
 	c06R2(ic, r)
 	c06R3(ic, r)
 	c06R4(ic, r)
+	c06R10(ic, r)
 	// R06.6: defers, recover and panics inside instantiated generic code rest on the AST copy
 	// being identical to a freshly built tree (same analysis as C01/R01.4).
 	sub := newReport("C01")
@@ -695,4 +697,160 @@ func fieldOrLocalCopy(ic *IC, body ast.Node, e ast.Expr, fld *types.Var) bool {
 		return true
 	})
 	return found
+}
+
+// c06R10: between the recover() of the unwinding function and its panic(recovered), the code
+// that writes the trace line runs inside the deferred function: a Go run-time fault there
+// replaces the panic in flight (recover then yields "index out of range" instead of the
+// script's value). In the deferred function of runCfg and the in-package functions it calls
+// (those running interpreted code excepted), every constant index into a node's children
+// X.child[k] is covered by a test of X's kind or of len(X.child) on the path leading to it.
+func c06R10(ic *IC, r *Report) {
+	fi := ic.fn(r, "runCfg")
+	if fi == nil {
+		return
+	}
+	info := ic.Info
+	childFld := ic.field("node", "child")
+	if childFld == nil {
+		r.Errorf("anchor not resolved: node.child")
+		return
+	}
+	var deferred *ast.FuncLit
+	ast.Inspect(fi.Decl.Body, func(n ast.Node) bool {
+		if ds, ok := n.(*ast.DeferStmt); ok && deferred == nil {
+			if fl, ok := ds.Call.Fun.(*ast.FuncLit); ok && len(callsInBuiltin(info, fl.Body, "recover")) > 0 {
+				deferred = fl
+			}
+		}
+		return true
+	})
+	if deferred == nil {
+		r.Errorf("R06.10: the deferred function of runCfg calling recover() was not found")
+		return
+	}
+	// bodies on the propagation path
+	type unit struct {
+		name string
+		body *ast.BlockStmt
+	}
+	units := []unit{{"runCfg/deferred", deferred.Body}}
+	seen := map[*types.Func]bool{}
+	var collect func(body ast.Node)
+	collect = func(body ast.Node) {
+		ast.Inspect(body, func(n ast.Node) bool {
+			c, ok := n.(*ast.CallExpr)
+			if !ok {
+				return true
+			}
+			f, ok := calleeOf(info, c).(*types.Func)
+			if !ok || f.Pkg() != ic.Pk.Types || seen[f] {
+				return true
+			}
+			seen[f] = true
+			switch f.Name() {
+			case "callDeferred", "Walk":
+				return true // runs interpreted code / generic tree walk with callbacks
+			}
+			if cfi := ic.G.Funcs[f]; cfi != nil && cfi.Decl.Body != nil {
+				units = append(units, unit{funcName(cfi.Decl), cfi.Decl.Body})
+				collect(cfi.Decl.Body)
+			}
+			return true
+		})
+	}
+	collect(deferred.Body)
+	nIdx := 0
+	for _, u := range units {
+		ast.Inspect(u.body, func(n ast.Node) bool {
+			ix, ok := n.(*ast.IndexExpr)
+			if !ok {
+				return true
+			}
+			se, ok := unparen(ix.X).(*ast.SelectorExpr)
+			if !ok || selField(info, se) != childFld {
+				return true
+			}
+			tv, ok := info.Types[ix.Index]
+			if !ok || tv.Value == nil {
+				return true
+			}
+			nIdx++
+			owner := types.ExprString(se.X)
+			covered := false
+			mentions := func(e ast.Node) bool {
+				found := false
+				ast.Inspect(e, func(m ast.Node) bool {
+					switch x := m.(type) {
+					case *ast.SelectorExpr:
+						if x.Sel.Name == "kind" && types.ExprString(x.X) == owner {
+							found = true
+						}
+					case *ast.CallExpr:
+						if isBuiltinCall(info, x, "len") && len(x.Args) == 1 && types.ExprString(x.Args[0]) == owner+".child" {
+							found = true
+						}
+					}
+					return !found
+				})
+				return found
+			}
+			path := enclosingPath(u.body, ix)
+			for i, p := range path {
+				switch x := p.(type) {
+				case *ast.IfStmt:
+					if i+1 < len(path) && path[i+1] == ast.Node(x.Body) && mentions(x.Cond) {
+						covered = true
+					}
+					// if len(X.child) == 0 { return } before: handled below
+				case *ast.SwitchStmt:
+					if x.Tag != nil && mentions(x.Tag) {
+						covered = true
+					}
+				case *ast.CaseClause:
+					for _, e := range x.List {
+						if mentions(e) {
+							covered = true
+						}
+					}
+				case *ast.BinaryExpr:
+					// len(X.child) > 1 && X.child[1]...
+					if x.Op == token.LAND && i+1 < len(path) && path[i+1] == ast.Node(x.Y) && mentions(x.X) {
+						covered = true
+					}
+				case *ast.BlockStmt:
+					// an earlier statement of the block leaving when the test fails
+					for _, st := range x.List {
+						if i+1 < len(path) && st == path[i+1] {
+							break
+						}
+						if ifs, ok := st.(*ast.IfStmt); ok && mentions(ifs.Cond) && len(ifs.Body.List) > 0 {
+							switch ifs.Body.List[len(ifs.Body.List)-1].(type) {
+							case *ast.ReturnStmt, *ast.BranchStmt:
+								covered = true
+							}
+						}
+					}
+				}
+			}
+			r.Check(covered, "R06.10", fmt.Sprintf("%s/%s.child[%s]/guarded", u.name, owner, tv.Value.ExactString()), ic.pos(ix.Pos()), "the node's kind or number of children is tested on the way",
+				u.name+" indexes "+types.ExprString(ix)+" while the panic is being propagated, with no test of "+owner+".kind or len("+owner+".child) on the path: for a node with fewer children (a receiver declared without a name has one) the index faults inside the deferred function of runCfg, and that run-time error replaces the script's panic value for recover and for the error returned by Eval")
+			return true
+		})
+	}
+	r.Info["propagation_path_functions"] = len(units)
+	if nIdx == 0 {
+		r.Errorf("R06.10: no constant index into node.child found on the propagation path (panicFunc is expected to read the function name)")
+	}
+}
+
+func callsInBuiltin(info *types.Info, body ast.Node, name string) []*ast.CallExpr {
+	var out []*ast.CallExpr
+	ast.Inspect(body, func(n ast.Node) bool {
+		if c, ok := n.(*ast.CallExpr); ok && isBuiltinCall(info, c, name) {
+			out = append(out, c)
+		}
+		return true
+	})
+	return out
 }
